@@ -19,7 +19,8 @@ TRUSTED = [
     "range bound, the fx->table mapper, Defaults.UnitId and the 0..247 id range",
 ]
 ASSUMPTIONS = ["values stored in blocks are integers/booleans (booleans travel as 0/1)",
-               "setValues is called with a list (the scalar-to-list coercion is shape-checked by the translator, not modelled)"]
+               "the dictionary form setValues(_, {k: v}) is modelled and exercised for sparse blocks only (on a sequential "
+               "block it would store the dict object itself in one cell)"]
 
 IMPORTS = ("From PM.theories Require Import Base Expr Store CorrStore.\n"
            "From PM.Generated Require Import GenStore.")
@@ -55,6 +56,12 @@ def run_block_ops(blk, ops):
             elif op[0] == "set":
                 blk.setValues(op[1], list(op[2]))
                 outs.append(("N",))
+            elif op[0] == "setscalar":
+                blk.setValues(op[1], op[2])            # non-list value: coerced to [value]
+                outs.append(("N",))
+            elif op[0] == "setdict":
+                blk.setValues(0, dict(op[1]))          # documented dictionary form (sparse blocks)
+                outs.append(("N",))
             elif op[0] == "reset":
                 blk.reset()
                 outs.append(("N",))
@@ -72,6 +79,10 @@ def bop_term(op):
         return "BGet %s %s" % (z(op[1]), z(op[2]))
     if op[0] == "set":
         return "BSet %s %s" % (z(op[1]), zlist(op[2]))
+    if op[0] == "setscalar":
+        return "BSetScalar %s %s" % (z(op[1]), z(op[2]))
+    if op[0] == "setdict":
+        return "BSetDict %s" % pairs(op[1])
     return {"reset": "BReset", "iter": "BIter"}[op[0]]
 
 
@@ -127,7 +138,14 @@ def gen_ops(r, kind, start, values, n):
                     m += 1
             else:
                 m = max(c, 0)
-            ops.append(("set", a, [r.randrange(65536) for _ in range(m)]))
+            form = r.random()
+            if form < 0.12:
+                ops.append(("setscalar", r.choice(cells), r.randrange(1, 65536)))
+            elif form < 0.3 and kind == "sp":
+                ks = r.sample(cells, r.choice([1, 1, 2, 3]))
+                ops.append(("setdict", [(k, r.randrange(1, 65536)) for k in ks]))
+            else:
+                ops.append(("set", a, [r.randrange(65536) for _ in range(m)]))
         elif k < 0.92:
             ops.append(("reset",))
         else:
@@ -145,7 +163,7 @@ def block_case(kind, start, values, ops, label):
     outs = run_block_ops(blk, ops)
     cells = set(populated(kind, start, values))
     nontriv = any((op[0] == "get" and accepted(cells, op[1], op[2])) or
-                  (op[0] == "set" and accepted(cells, op[1], len(op[2]))) or
+                  (op[0] == "set" and accepted(cells, op[1], len(op[2]))) or op[0] in ("setscalar", "setdict") or
                   (op[0] == "validate" and op[2] >= 1) for op in ops)
     term = "(%s, %s, %s)" % (block_term(kind, start, values), lst(bop_term(o) for o in ops), lst(bout_term(o) for o in outs))
     desc = {"block": [kind, start, values], "ops": [list(o) for o in ops], "impl_outputs": [list(o) for o in outs]}
